@@ -194,6 +194,10 @@ def sizeOther : Nat := NV.Gen.C16.sizeOther
 /-- default of the configuration item MaxArraySize (lib/rc/rc.cpp); the harness does not override it -/
 def maxArray : Nat := NV.Gen.C16.maxArraySize
 
+/-- `USHRT_MAX`: an `array_t` counts its members in an `unsigned short`; restore_class refuses a text with more (since the
+    class-size fix; before, the count was truncated: 65536 members came back as a class of 0) — REGENERATED -/
+def maxClass : Nat := NV.Gen.C16.ushrtMax
+
 mutual
 /-- `svalue_save_size` with `save_svalue_depth = d` on entry; `none` = too_deep_save_error() -/
 def saveSize (F : FloatOps α) (d : Nat) : Value α → Option Nat
@@ -231,6 +235,30 @@ def saveVariable (F : FloatOps α) (v : Value α) : SaveOut :=
   match saveSize F 0 v with
   | none => .tooDeep
   | some n => let t := save F v; if t.length + 1 ≤ n then .ok t else .crash
+
+/-- default of the configuration item MaxStringLength (lib/rc/rc.cpp); the harness does not override it — REGENERATED -/
+def maxStringLength : Nat := NV.Gen.C16.maxStringLength
+
+/-- outcome of the efun save_variable -/
+inductive SaveEfunOut where
+  | ok (text : List Byte)
+  | tooDeep
+  /-- `theSize - 1 > MaxStringLength`: error raised before anything is allocated -/
+  | tooLong
+  | crash
+  deriving Repr, BEq, DecidableEq
+
+/-- `save_variable` with its length test: size, `if (theSize - 1 > MaxStringLength) error (..)`, allocation, write -/
+def saveVariableEfun (F : FloatOps α) (v : Value α) : SaveEfunOut :=
+  match saveSize F 0 v with
+  | none => .tooDeep
+  | some n =>
+    if n - 1 > maxStringLength then .tooLong
+    else
+      match saveVariable F v with
+      | .ok t => .ok t
+      | .tooDeep => .tooDeep
+      | .crash => .crash
 
 /-! ## restore side -/
 
@@ -589,6 +617,7 @@ def rdNested (F : FloatOps α) : Nat → List Byte → List Nat → Res (Step (V
         | [] => .crash
         | n :: zs' =>
           if k = 123 ∧ n > maxArray then .err .arraySize else
+          if k = 47 ∧ n > maxClass then .err .cls else
           match rdElems F fuel r n zs' .nil (if k = 123 then .array else .cls) with
           | .ok st => .ok ⟨if k = 123 then .arr st.val else .cls st.val, st.cur, st.zs⟩
           | .err e => .err e
@@ -711,6 +740,7 @@ def restoreContainer (F : FloatOps α) (mb : MbLen) (k : Byte) (s : List Byte) :
     | none => .err generic
     | some (_, n, zs) =>
       if k = 123 ∧ n > maxArray then .err .arraySize else
+      if k = 47 ∧ n > maxClass then .err .cls else
       match rdElems F fuel s n zs .nil generic with
       | .ok st => .ok (if k = 123 then .arr st.val else .cls st.val)
       | .err e => .err e
